@@ -90,8 +90,10 @@ CLAIMED = {
    text="Lean theorems over verbatim models of AgeFitness, Tournament, DeterministicCrowding: age-fitness only permutes its list, returns target..n members, every removal is NaN or dominated by an "
         "individual alive and unmarked at the end of that round -- including the selection_size>2 branch where an already-marked individual removes another (af_round_justified, "
         "af_removal_justified), terminates within n*WORST_CASE_FACTOR rounds (constant regenerated); tournament winners are members and minimal; crowding slots hold the parent or the paired child, "
-        "child iff strictly better or non-NaN vs NaN. Tie: logged draws replayed in the model, exact final order; identity-based oracle replaying every removal.",
-   note=COMMON_NOTE + "Random draws are oracle inputs under the contract 'duplicate-free, in range'. Probabilistic operators: membership/count by oracle only (log-scale mode); F14 (linear scale) not claimed.",
+        "child iff strictly better or non-NaN vs NaN; probabilistic crowding / tournament return members in the promised number for every outcome of the random numbers "
+        "(prob_crowd_member_count, prob_tour_member_count, searchLeft_lt). Tie: logged draws replayed in the model, exact final order; identity-based oracle replaying every removal.",
+   note=COMMON_NOTE + "Random draws are oracle inputs under the contract 'duplicate-free, in range'. The float weights of the probabilistic operators (exp(f - median)) are not modelled: the coin / "
+        "searchsorted index is logged; F14 (linear scale with negative keys) not claimed.",
    technique="Lean 4 proof (loop invariants, well-founded chain of justifications) + exact correspondence under logged draws",
    design="5/C08"),
  "C11": dict(
